@@ -92,7 +92,9 @@ FORMS = {
     "itemsets": {"md": MD_ITEMSETS, "expect": "ok"},
     "early": {"md": MD_EARLY, "expect": "early"},
     "late": {"md": MD_LATE, "expect": "late"},
-    "surrogate": {"dict": DICT_SURROGATE, "expect": "unencodable", "lib_only": True},
+    # a lone surrogate in a label: UnicodeEncodeError while writing the temp file (print_xform_to_file's except
+    # branch) on trees that let it through, a PyXFormError once characters are validated
+    "surrogate": {"dict": DICT_SURROGATE, "expect": ("unencodable", "early", "late"), "lib_only": True},
 }
 LANG_WARNING_PREFIX = "The following language declarations do not contain valid machine-readable codes"
 
@@ -110,7 +112,7 @@ def abstract_form(sb, fid):
             k = "unencodable"
         else:
             raise vcore.Infra(f"baseline conversion of form {fid} raised {a['raised']}: {a['msg']}")
-        if k != f["expect"]:
+        if k != f["expect"] and k not in f["expect"]:
             raise vcore.Infra(f"form {fid}: expected kind {f['expect']}, the code now gives {k} ({a['msg'][:100]})")
         return {"k": k, "msg": a["msg"]}
     if f["expect"] != "ok" or b["raised"]:
@@ -234,22 +236,6 @@ def cleaner_oracle(text: str, out: str):
                     fails.append(("cleaner-path-not-replaced", f"instance path {tok!r} is not shown as ${{{last}}}", {"path": tok}))
                     return fails
     return fails
-
-
-def noise_recreated_by_prefix_removal(text: str, line: str) -> bool:
-    """Shape of finding C18-F1: the noisy output line is not a line of the input (those are dropped) but arises
-    from deleting every occurrence of an exception-name prefix inside a line that starts with it."""
-    for ln in text.replace("\r\n", "\n").splitlines():
-        if any(m in ln for m in MARKERS):
-            continue
-        if any(ln.startswith(p) for p in EXC) and any(m in line for m in MARKERS):
-            cur = ln
-            for p in EXC:
-                if cur.startswith(p):
-                    cur = cur.replace(p, "")
-            if cur == line:
-                return True
-    return False
 
 
 def odd_segment(path: str) -> bool:
@@ -491,11 +477,16 @@ def outcomes(ctx, rng, factor):
     for i in range(n_warn):
         outs.append({"tag": "exit0-stderr", "kind": "exit", "code": 0, "stderr": gen_stderr(rng, directed=False) if i else "Warning: /data/g/q1 is odd\n"})
     for i in range(n_rej):
-        outs.append({"tag": "exit>0", "kind": "exit", "code": rng.choice([1, 1, 2, 70, 255]), "stderr": gen_stderr(rng)})
+        outs.append({"tag": "exit>0", "kind": "exit", "code": rng.choice([1, 1, 2, 3, 70, 137, 255]), "stderr": gen_stderr(rng)})
     outs.append({"tag": "exit>0", "kind": "exit", "code": 1,
                  "stderr": ">> Something broke the parser. See above for a hint.\norg.javarosa.xform.parse.XFormParseException: Cycle detected in form's relevant and calculation logic!\n"
                            "The following nodesets depend on one another in a cycle: /data/g/q1, /data/q2\n\tat org.javarosa.xform.parse.XFormParser.parse(XFormParser.java:491)\n"
                            "Result: Invalid\n"})
+    # the validator rejects without a word on stderr (diagnostics on stdout only, a wrapper or JVM dying silently)
+    silent_codes = [1, 2, 3, 137] if not ctx.quick() else [1, rng.choice([2, 3]), 137]
+    for code in silent_codes:
+        outs.append({"tag": "exit>0-silent", "kind": "exit", "code": code, "stderr": ""})
+    outs.append({"tag": "exit>0-blank-stderr", "kind": "exit", "code": rng.choice([1, 2, 3, 137]), "stderr": rng.choice(["\n", " ", "\r\n\t"])})
     outs.append({"tag": "exit>0-latin1", "kind": "exit", "code": 1, "stderr_hex": "café /data/g/q1\n".encode("latin-1").hex()})
     outs.append({"tag": "jar-unreadable", "kind": "exit", "code": 1, "stderr": JARFILE + " /opt/x/pyxform/validators/odk_validate/bin/ODK_Validate.jar\n"})
     outs.append({"tag": "jar-corrupt", "kind": "exit", "code": 1, "stderr": "Error: Invalid or corrupt jarfile /opt/x/pyxform/validators/odk_validate/bin/ODK_Validate.jar\n"})
@@ -527,10 +518,15 @@ def explore(ctx, factor, bs):
     n_clean = ctx.pick(2500, 120000) * min(factor, 3)
     for i in range(n_clean):
         cleaner_case(ctx, gen_stderr(rng, p_odd=0.0))
-    # directed shapes behind the guards of the cleaner theorems (known findings C18-F1, C18-F2)
-    for text in ("java.lang.RuntimeException: Foo.javajava.lang.RuntimeException: :12 broke\n",
-                 "Error in /data/g/my.q\n", "Error in /data/café/q1 and /data/g/q1\n"):
+    # directed shapes: marker assembled by deleting exception names (C18-F1, repaired); guard of cleaner_paths_to_refs (C18-F2)
+    for text in ("Error in /data/g/my.q\n", "Error in /data/café/q1 and /data/g/q1\n"):
         cleaner_case(ctx, text)
+    # family: a stack marker split around a second occurrence of the exception name the line starts with
+    for _ in range(ctx.pick(12, 120)):
+        pre = rng.choice(EXC)
+        mk = rng.choice(MARKERS)
+        i = rng.randint(1, len(mk) - 1)
+        cleaner_case(ctx, pre + rng.choice(["", "Foo", "x y"]) + mk[:i] + pre + mk[i:] + rng.choice(["", "12 broke", " org.X.y(Z)"]) + "\n" + rng.choice(["", "kept /data/g/q1\n"]))
     for i in range(ctx.pick(60, 600)):
         cleaner_case(ctx, gen_stderr(rng, p_odd=0.5, directed=False))
     # (c) the matrix
@@ -572,8 +568,6 @@ def replay(ctx, payload, bs):
 
 
 MATCHERS = {
-    "C18-F1-cleaner-noise-recreated": lambda f: f.kind == "cleaner-noise-survives"
-    and noise_recreated_by_prefix_removal(f.extra.get("text", ""), f.extra.get("line", "")),
     "C18-F2-cleaner-name-charset": lambda f: f.kind == "cleaner-path-not-replaced" and odd_segment(f.extra.get("path", "")),
     "C18-F3-output-named-itemsets": lambda f: f.kind == "file-differs-from-library"
     and f.case.get("mode", {}).get("out") == "itemsets.csv" and f.case.get("form") == "itemsets",
